@@ -408,6 +408,15 @@ pub fn run_case(c: &CaseCfg, ops: &[String], out: &mut dyn Write, scratch: &Path
             "reopen" => {
                 live.h = None;
                 live.kv = None;
+                // a restart: the old instance is gone before the new one starts (its worker thread holds the last handle,
+                // and with it the writer, for a moment).  When a handle is kept on purpose (C17) the store is opened at once.
+                if live.old.is_none() {
+                    let t0 = std::time::Instant::now();
+                    // (its descriptors are closed when the last handle is gone: the worker thread may not even have started yet)
+                    while (count_bg_threads() > 0 || count_store_fds(&dir) > 0) && t0.elapsed().as_millis() < 3000 {
+                        std::thread::sleep(std::time::Duration::from_millis(1));
+                    }
+                }
                 match std::panic::catch_unwind(|| make_config(c, &dir).open()) {
                     Ok(Ok(kv)) => {
                         live.h = Some(kv.get_handle());
